@@ -587,4 +587,4 @@ def run(chk: common.Check) -> None:
         if disagreements:
             runs, line, m, ih = min(disagreements, key=lambda d: sum(len(e) for _, e in d[0]))
             d = {'runs': runs, 'hook': line, 'model': m, 'implementation': ih}
-        chk.violation('C11: ' + broken[0], {'no_longer_checks': broken, 'smallest_disagreement': d}, no_input=True)
+        chk.violation('C11: ' + ' | '.join(broken[:3]), {'no_longer_checks': broken, 'smallest_disagreement': d}, no_input=True)
